@@ -91,7 +91,15 @@ class BodyFlow:
         while p and isinstance(p[0], str) and p[0].isdigit() and (r > self.body.argc or r == 0) and n < 8:
             n += 1
             rv = self.single_rvalue(r)
-            if rv is None or rv.k != 'agg' or rv.d.get('ak') not in ('closure', 'tuple') or int(p[0]) >= len(rv.ops) or rv.ops[int(p[0])].place is None:
+            if rv is None:
+                # the future an `.await` polls is `IntoFuture::into_future(f)`: f itself
+                d = self.single_def(r)
+                if d and d[2] == 'call' and (d[3].callee() or '').endswith('IntoFuture::into_future') and d[3].args and d[3].args[0].place is not None:
+                    r2, p2 = self._root_of_place_raw(d[3].args[0].place, depth + 1)
+                    r, p = r2, p2 + p
+                    continue
+                break
+            if rv.k != 'agg' or rv.d.get('ak') not in ('closure', 'tuple', 'coroutine') or int(p[0]) >= len(rv.ops) or rv.ops[int(p[0])].place is None:
                 break
             r2, p2 = self._root_of_place_raw(rv.ops[int(p[0])].place, depth + 1)
             r, p = r2, p2 + p[1:]
@@ -558,6 +566,9 @@ def _term_place(bf, place, depth, seen):
                 base = base[1][e['f']]
             elif base[0] == 'closure' and len(base) == 3 and isinstance(base[2], tuple) and e['f'] < len(base[2]):
                 base = base[2][e['f']]      # a capture read back from a closure environment built in this body
+            elif base[0] == 'call' and isinstance(base[1], str) and base[1].endswith('IntoFuture::into_future') and len(base[2]) == 1 and \
+                    isinstance(base[2][0], tuple) and base[2][0][:1] == ('closure',) and e['f'] < len(base[2][0][2]):
+                base = base[2][0][2][e['f']]
             else:
                 base = ('field', base, nm)
         elif 'i' in e:
